@@ -81,7 +81,7 @@ struct Sc {
 	// fibre behaviour
 	int y_left = 0, sl_rounds = 0;
 	uint32_t sl_delta = 3, sl_due = 0;
-	bool sl_armed = false, epilogue = false;
+	bool sl_armed = false, epilogue = false, sl_kick = false;
 	uint32_t now = 100;
 	// history
 	std::vector<Dispatch> disp;
@@ -318,6 +318,14 @@ extern "C" int hfc_dispatch(int idx)
 		}
 		if (s.sl_rounds > 0) {
 			s.sl_rounds--;
+			if (s.sl_kick) {
+				// SL wakes Y before going to sleep: fibre_run drains interrupt-context requests, so a request for
+				// SL itself that arrived during this dispatch puts SL on the run queue before it arms its timeout
+				afc_run(Y);
+				s.reasons[Y]++;
+				s.owed.push_back({ Y, vrt_now(), "fibre_run (called by SL)" });
+				s.note("SL calls fibre_run(Y)");
+			}
 			s.sl_due = s.now + s.sl_delta;
 			if (!afc_timeout(s.sl_due)) {
 				s.sl_armed = true;
@@ -386,6 +394,9 @@ void h_run(Ctx &c)
 	if (s.sl_rounds < 0)
 		s.sl_rounds = (int)t.choose(3);
 	s.sl_delta = fixed ? 3 : 1 + t.choose(6);
+	s.sl_kick = !c.feat(2) ? false : c.param("sl_kick", fixed ? 0 : -1) < 0 ? t.choose(3) == 1 : c.param("sl_kick", 0) != 0;
+	if (s.sl_kick && s.sl_rounds > 0)
+		c.cls("sleeper-calls-fibre_run-before-arming-its-timeout");
 	// ---- interrupt contexts: "hN" params are action codes: 0..2 = fibre_run_atomic(EV/Y/SL), 3 = event, 4 = two events, 5 = event + run_atomic(Y)
 	unsigned nh = (unsigned)c.param("handlers", fixed ? 2 : 0);
 	if (!nh)
@@ -452,7 +463,7 @@ void h_run(Ctx &c)
 	uint64_t t_last_interrupt = vrt_now();
 	// ---- drain: keep calling the scheduler until it is idle (bounded: liveness is checked as bounded eventuality)
 	bool idle = false;
-	unsigned bound = 4 * (3 + (unsigned)s.reqs.size()) + 8 + (unsigned)s.y_left;
+	unsigned bound = 4 * (3 + (unsigned)s.reqs.size()) + 8 + (unsigned)s.y_left + 2 * (unsigned)s.sl_rounds;
 	for (unsigned i = 0; i < bound && !c.failed; i++) {
 		do_pass(1);
 		Pass &p = s.passes.back();
